@@ -1094,6 +1094,39 @@ def step (s : St) (op : List String) (impl : Option (List String)) : St × Strin
 where
   log2 : Float := Float.log 2.0
 
-def machine : Machine St := { init := fun _ => {}, step := step }
+/-- calls that leave trailing arguments to their defaults (`dcov`, `dsdw`, `dshannon`, …; `…1` =
+only the first option given) are the explicit calls with the defaults of the declarations -/
+def withDefaults (name : String) (args : List String) : Option (List String) :=
+  let u := showBool VecTools.dfltUnbiased
+  let n := showBool VecTools.dfltNormalizeWeights
+  let b := Hex.ofFloat (VecTools.dfltBase : Float)
+  match name with
+  | "dcov" => some ("cov" :: u :: args)
+  | "dvar" => some ("var" :: u :: args)
+  | "dsd" => some ("sd" :: u :: args)
+  | "dmeanw" => some ("meanw" :: n :: args)
+  | "dcenterw" => some ("centerw" :: n :: args)
+  | "dcorw" => some ("corw" :: n :: args)
+  | "dcovw" => some ("covw4" :: u :: n :: args)
+  | "dvarw" => some ("varw4" :: u :: n :: args)
+  | "dsdw" => some ("sdw" :: u :: n :: args)
+  | "dcovw1" => match args with | f :: rest => some ("covw4" :: f :: n :: rest) | [] => none
+  | "dvarw1" => match args with | f :: rest => some ("varw4" :: f :: n :: rest) | [] => none
+  | "dsdw1" => match args with | f :: rest => some ("sdw" :: f :: n :: rest) | [] => none
+  | "dshannon" => some ("shannon" :: b :: ";" :: args)
+  | "dshannondisc" => some ("shannondisc" :: b :: ";" :: args)
+  | "dmidisc" => some ("midisc" :: b :: ";" :: args)
+  | "dshannoncont" => some ("shannoncont" :: b :: ";" :: args)
+  | "dmicont" => some ("micont" :: b :: ";" :: args)
+  | _ => none
+
+def stepTop (s : St) (op : List String) (impl : Option (List String)) : St × String × String :=
+  match op with
+  | name :: args => match withDefaults name args with
+    | some op' => step s op' impl
+    | none => step s op impl
+  | [] => step s op impl
+
+def machine : Machine St := { init := fun _ => {}, step := stepTop }
 
 end Bpp.Drive.C07
